@@ -250,8 +250,10 @@ def checked_before_trusted(p, rep, rid, f, require_type_guard=None, optional=Fal
                 # conditional assert: allowed only under the guard on its own parameter
                 if require_type_guard and need == "type":
                     extra = [(norm(t), pol) for t, pol in cfg.guards(anode) if (norm(t), pol) not in [(norm(t2), p2) for t2, p2 in cfg.guards(cnode)]]
-                    if extra == [(f"{require_type_guard} is not None", True)] and cfg.can_reach(anode, cnode):
-                        ok, why = True, f"type assert skipped only when {require_type_guard} is None"
+                    # ... that is, on the very type the assert would compare with: `if T is not None: assert_(v, isinstance(v, T))`
+                    tnames = {y.id for y in ast.walk(a.value) if isinstance(y, ast.Name)} - {var}
+                    if len(extra) == 1 and extra[0][1] and extra[0][0].endswith(" is not None") and extra[0][0][: -len(" is not None")] in tnames and cfg.can_reach(anode, cnode):
+                        ok, why = True, f"type assert skipped only when the expected type `{extra[0][0][: -len(' is not None')]}` is None"
                         break
                     why = f"type assert is conditional on {extra}"
             rep.add(rid, f"{f.qualname}:{var}:{need}-checked-before-cast", site, ok, why)
